@@ -21,6 +21,8 @@ def jobs(tier):
     js.append(('c17_free', (3,), 3))
     if tier != 'quick':
         js.append(('c17_free', (4,), 4))
+    for text in overlap_inputs():
+        js.append(('c17_const', (text,), 0))
     from vt import cover
     docs, _ = cover.cover_docs('quick', 0)
     step = 29 if tier == 'quick' else 7
@@ -28,6 +30,25 @@ def jobs(tier):
         for v in cover.variants(docs[di], di)[:1]:
             js.append(('c17_doc', (v,), None))
     return js
+
+
+def overlap_inputs():
+    """inputs derived from the *current* sizing-command table: every entry that has another entry as a proper prefix
+    (the first-match scan over the set is order dependent exactly there)"""
+    import importlib
+    if REPO not in sys.path:
+        sys.path.insert(0, REPO)
+    try:
+        tok = importlib.import_module('TexSoup.tokens')
+        table = sorted(getattr(tok, 'PUNCTUATION_COMMANDS', ()))
+    except Exception:
+        return []
+    out = []
+    for q in table:
+        if any(p != q and q.startswith(p) for p in table):
+            out.append('$a\\' + q + ' b$')
+            out.append('\\' + q + 'x')
+    return out[:60]
 
 
 def worker(outfile, tier, part, nparts):
@@ -158,6 +179,8 @@ def witness_text(fname, args, asg):
         return '$\\' + SIZES[args[0]] + vals + 'a$'
     if fname == 'c17_free':
         return vals
+    if fname == 'c17_const':
+        return args[0]
     # skeleton document: instantiate concretely with the model's characters
     from symtex import api, skeleton as K
     sx = api.ConcreteSX([asg[k] for k in sorted(asg)])
